@@ -253,7 +253,9 @@ def inline_new_helpers(mod, pinned):
             # ('return helper(p, ...)' with the argument being the host's own, now dead, variable p needs not even that)
             rebound = sorted(hlocals & set(binding))
             tail_call = isinstance(st, ast.Return) and st.value is call
-            identity = set(p for p in rebound if tail_call and isinstance(binding[p], ast.Name) and binding[p].id == p)
+            # ... nor when the calling assignment overwrites that very variable with (part of) the helper's result:  pos, res = helper(pos, ...)
+            back = set(x.id for t in st.targets for x in ast.walk(t) if isinstance(x, ast.Name)) if isinstance(st, ast.Assign) and st.value is call else set()
+            identity = set(p for p in rebound if (tail_call or p in back) and isinstance(binding[p], ast.Name) and binding[p].id == p)
             if any(isinstance(x, ast.Name) and x.id in hlocals and not (x is v and p in identity) for p, v in binding.items() for x in ast.walk(v)):
                 continue          # an argument reads a name the helper assigns: leave alone
             if host is not None:
@@ -265,6 +267,9 @@ def inline_new_helpers(mod, pinned):
                 if isinstance(st, ast.Assign) and st.value is call and len(st.targets) == 1 and isinstance(st.targets[0], ast.Name) \
                         and not any(isinstance(a, ast.Try) for a in _ancestors(st) if not isinstance(a, ast.Module)):
                     own_target.add(st.targets[0].id)
+                if back and not any(isinstance(a, ast.Try) for a in _ancestors(st) if not isinstance(a, ast.Module)) and len(st.targets) == 1 \
+                        and isinstance(st.targets[0], ast.Tuple) and all(isinstance(e_, ast.Name) for e_ in st.targets[0].elts):
+                    own_target |= back          # a, b = helper(...): both are dead before and assigned by the statement (tuple assignment evaluates the right side first)
                 if (hlocals - identity - own_target) & host_names[id(host)]:
                     continue      # name capture: leave alone
             pre_assign = []
